@@ -305,11 +305,12 @@ def project(sd: SuccessionDiagram) -> dict:
 # ------------------------------------------------------------------------------------------------
 # executing one op
 # ------------------------------------------------------------------------------------------------
+EMPTY_PROJ = {"nodes": [], "edges": [], "idx": [], "len": 0, "depth": 0, "ids": []}
 DEFAULT_EVENT = {"op": "", "n": 0, "lvl": -1, "size": -1, "stk": -1, "skip": False, "target": [],
                  "greedy": True, "sim": True, "fallback": False, "maa": True, "optsrc": True, "exact": False,
                  "ret": "none", "out": [], "raised": False, "exc": "", "xl": [], "mts": [], "orc": [],
                  "fail_at": 0, "solver_calls": 0, "loops": [], "work": 0, "ctl": [], "strategy": "internal", "bound": -1,
-                 "forbidden": [], "sonly": True}
+                 "forbidden": [], "sonly": True, "cmpops": [], "other": EMPTY_PROJ}
 
 
 def lim(x):
@@ -406,6 +407,23 @@ def run_op(sd: SuccessionDiagram, op: dict, timeout_s: float = 20.0) -> tuple[Su
             ev["ctl"] = [{"succ": [vec(m, names) for m in iv.succession],
                           "ctl": [[vec(d, names) for d in step] for step in iv.control], "ok": bool(iv.successful)} for iv in r]
             ret = "ok"
+        elif kind == "find":
+            r = sd.find_node(_space_of(ev["target"], names))
+            ret = str(0 if r is None else r + 1)
+        elif kind == "summary":
+            out = parse_summary(sd.summary(), names)
+            ret = "ok"
+        elif kind == "cmp":
+            other = make_sd_like(sd)
+            CTX.how[id(other)] = {}
+            for o in ev["cmpops"]:
+                if o.get("n", 1) <= len(other):
+                    CTX.active = other
+                    other, _e = run_op(other, o, timeout_s)
+            CTX.active = sd
+            ev["other"] = project(other)
+            out = [1 if sd.is_subgraph(other) else 0, 1 if other.is_subgraph(sd) else 0, 1 if sd.is_isomorphic(other) else 0]
+            ret = "ok"
         elif kind == "allsets":
             for i in range(len(sd)):
                 sd.node_attractor_sets(i, compute=True)
@@ -448,6 +466,40 @@ def run_op(sd: SuccessionDiagram, op: dict, timeout_s: float = 20.0) -> tuple[Su
     ev["post"] = project(sd)
     CTX.active = None
     return sd, ev
+
+
+def parse_summary(text: str, names: list[str]) -> list:
+    """summary() text -> [nodes, depth, [[label, space vector, [state vectors]], ...]] (label 1 = minimal, 0 = motif avoidance)"""
+    lines = text.split("\n")
+    import re as _re
+    m = _re.match(r"Succession Diagram with (\d+) nodes and depth (\d+)\.", lines[0])
+    order = sorted(names)
+    entries = []
+    cur = None
+    for ln in lines[4:]:
+        if ln.startswith("minimal trap space ") or ln.startswith("motif avoidance in "):
+            body = ln[len("minimal trap space "):]
+            sp = [2] * len(names)
+            for ch, nm in zip(body, order):
+                if ch != "*":
+                    sp[names.index(nm)] = int(ch)
+            cur = [1 if ln.startswith("minimal") else 0, sp, []]
+            entries.append(cur)
+        elif ln.startswith(".") and cur is not None:
+            body = ln.lstrip(".")
+            st = [2] * len(names)
+            for ch, nm in zip(body, order):
+                st[names.index(nm)] = int(ch)
+            cur[2].append(st)
+    return [int(m.group(1)), int(m.group(2)), entries]
+
+
+def make_sd_like(sd: SuccessionDiagram) -> SuccessionDiagram:
+    import copy as _copy
+    return SuccessionDiagram(sd.network, _copy.copy(sd.config))
+
+
+EMPTY_PROJ = {"nodes": [], "edges": [], "idx": [], "len": 0, "depth": 0, "ids": []}
 
 
 # ------------------------------------------------------------------------------------------------
